@@ -1,4 +1,5 @@
 import FrappyProofs.Lemmas.Comm
+import FrappyProofs.Lemmas.CommReply
 import FrappyProofs.Lemmas.CommRun
 import FrappyProofs.Lemmas.CommStep
 import FrappyProofs.Lemmas.Logging
